@@ -10,6 +10,8 @@ import (
 	"os"
 	"path/filepath"
 	"sort"
+	"sync"
+	"sync/atomic"
 	"time"
 
 	"github.com/Trendyol/go-dcp/config"
@@ -47,6 +49,7 @@ type hScenario struct {
 	SkipAt     int    `json:"skip_at,omitempty"`      // >0: dcp.listener.skipUntil = event time of seqno SkipAt (earlier document events are dropped)
 	MetaBucket string `json:"meta_bucket,omitempty"`  // metadata.config.bucket (couchbase metadata placed in another bucket)
 	EndOnClose bool   `json:"end_on_close,omitempty"` // the server confirms every CloseStream with STREAM_END(closed), as a real node does
+	CancelEnd  string `json:"cancel_end,omitempty"`   // C12: the history ends with a shutdown by cancel during which the server ends one stream with this transient cause
 	KeepF1     bool   `json:"keep_f1,omitempty"`      // do not exclude the known finding F1 by construction (units whose oracle is not C01's)
 	File       bool   `json:"file,omitempty"`         // real file metadata backend (whole-state writes) instead of the per-vBucket fake
 }
@@ -386,6 +389,9 @@ func (s *session) end(op hOp) {
 		s.cl.mu.Unlock()
 		s.label("reopen_refused_once")
 	}
+	s.cl.mu.Lock()
+	delete(s.cl.live, m.vb) // the node has no stream for it any more (a later close request is answered without an end notification)
+	s.cl.mu.Unlock()
 	o.End(models.DcpStreamEnd{VbID: m.vb}, cause)
 	if transientCause(op.Kind) {
 		s.label("end_transient")
@@ -468,6 +474,66 @@ func (s *session) end(op hOp) {
 }
 
 // checkActive: active-stream count == assigned - finally ended; the client stops iff all ended.
+// cancelShutdown (C12): the client is shut down (Close / signal). While the shutdown closes the streams the server ends the
+// stream of another vBucket with a transient cause (the connection dies under a pending close request): the client is no
+// longer running, the end is final - the vBucket is not requested again and no stream counts as active afterwards.
+func (s *session) cancelShutdown() {
+	var live []uint16
+	for vb, m := range s.vbs {
+		if !m.ended && !m.dead {
+			live = append(live, vb)
+		}
+	}
+	sort.Slice(live, func(i, j int) bool { return live[i] < live[j] })
+	if len(live) < 2 {
+		return
+	}
+	n0 := len(s.cl.openLog())
+	var once sync.Once
+	var hit atomic.Bool
+	var victim atomic.Int32
+	s.cl.mu.Lock()
+	s.cl.onClose = func(vb uint16) {
+		once.Do(func() {
+			for _, o := range live {
+				if o != vb && s.cl.serverEndUnlessClosing(o, endCauses[s.sc.CancelEnd]) {
+					victim.Store(int32(o))
+					hit.Store(true)
+					break
+				}
+			}
+		})
+	}
+	s.cl.mu.Unlock()
+	ok, pv := within(20*time.Second, func() { s.st.Close(true) })
+	s.cl.mu.Lock()
+	s.cl.onClose = nil
+	s.cl.mu.Unlock()
+	if !ok || pv != nil {
+		s.fail("C12", "shutdown with a stream ending (%s) meanwhile: Close returned=%v panic=%v", s.sc.CancelEnd, ok, pv)
+		return
+	}
+	if !hit.Load() {
+		return
+	}
+	s.label("transient_end_during_shutdown")
+	for dl := time.Now().Add(40 * time.Millisecond); time.Now().Before(dl) && len(s.cl.openLog()) == n0; {
+		time.Sleep(500 * time.Microsecond)
+	}
+	if opens := s.cl.openLog()[n0:]; len(opens) > 0 {
+		s.fail("C12", "vb %d: its stream ended with a transient cause (%s) while the client was being shut down and was requested again (%d request(s)): the client is no longer running, every end is final - a stream stays open on the server after the shutdown", opens[0].Vb, s.sc.CancelEnd, len(opens))
+		return
+	}
+	// streams closed by the shutdown leave the count only when the server confirms the close with an end notification
+	want := len(live) - 1
+	if s.sc.EndOnClose {
+		want = 0
+	}
+	if _, active := s.st.GetMetric(); int(active) != want {
+		s.fail("C12", "active-stream count %d after the shutdown, want %d (%d streams were open, one ended with a transient cause, %s, during the shutdown; closes confirmed by the server: %v)", active, want, len(live), s.sc.CancelEnd, s.sc.EndOnClose)
+	}
+}
+
 func (s *session) checkActive() {
 	total, ended := 0, 0
 	for _, m := range s.vbs {
@@ -1549,6 +1615,9 @@ func (s *session) finish() {
 		s.meta.mu.Unlock()
 	}
 	s.checkTracks()
+	if s.oracles["C12"] && s.sc.CancelEnd != "" && s.viol == nil && !s.stopped && s.st != nil && s.st.IsOpen() {
+		s.cancelShutdown()
+	}
 	// leave no goroutine behind: close the stream (manual checkpointing: no save inside)
 	if s.st != nil && s.st.IsOpen() {
 		within(20*time.Second, func() { s.st.Close(false) })
